@@ -716,6 +716,24 @@ func (fc *FuncCtx) specCall(x SCall, env *SpecEnv) Term {
 			}
 		}
 	}
+	// a struct constructor mk_<pkg>_<Type> of a type this function has not touched yet: declare its datatype
+	if strings.HasPrefix(x.Fn, "mk_") {
+		rest := strings.TrimPrefix(x.Fn, "mk_")
+		if i := strings.Index(rest, "_"); i > 0 {
+			if p := fc.E.ByName[rest[:i]]; p != nil && p.Types != nil {
+				if obj := p.Types.Scope().Lookup(rest[i+1:]); obj != nil {
+					if tn, ok := obj.(*types.TypeName); ok {
+						if n, ok := tn.Type().(*types.Named); ok && n.TypeParams() == nil {
+							func() {
+								defer func() { recover() }()
+								fc.sortOf(tn.Type())
+							}()
+						}
+					}
+				}
+			}
+		}
+	}
 	// datatype constructor: mk_Name(...) or CaseName(...)
 	for _, dn := range fc.Sorts.dtOrder {
 		d := fc.Sorts.dts[dn]
